@@ -32,8 +32,8 @@ type Controller struct {
 var current atomic.Value // *Controller
 
 // Install makes c the active controller (one per process at a time).
-func Install(seed int64, intensity int, maxSleep time.Duration) *Controller {
-	c := &Controller{seed: uint64(seed), intensity: uint64(intensity), maxSleep: maxSleep, hits: map[string]*int64{}, Fixed: map[string]time.Duration{}, OnHit: map[string]func(){}}
+func Install(seed int64, intensity int, maxSleep time.Duration, activity *int64) *Controller {
+	c := &Controller{Activity: activity, seed: uint64(seed), intensity: uint64(intensity), maxSleep: maxSleep, hits: map[string]*int64{}, Fixed: map[string]time.Duration{}, OnHit: map[string]func(){}}
 	current.Store(c)
 	gocql.VerifSetHook(hook)
 	return c
